@@ -33,6 +33,7 @@ type H2GenOpts struct {
 	Bodies           bool
 	ExtraMax         int  // extra fingerprint-relevant frames before each request
 	TailFrames       bool // more frames after the last request
+	PrioBurst        int  // that many PRIORITY frames on idle streams right after the preamble (a fingerprint of a kilobyte and more)
 	BadSettingsTail  bool // 15%: the script ends with a SETTINGS frame whose last-but-n entry the server must reject
 	OneGroupPerFrame bool
 }
@@ -150,6 +151,19 @@ func DrawH2Script(t *rapid.T, o H2GenOpts) *H2Script {
 	addEvent(FPEvent{Kind: "settings", Settings: ss})
 	// the preface bytes are prepended by the caller
 	extra(1, "npre")
+	for i := 0; i < o.PrioBurst; i++ {
+		st := uint32(2*(60+i%500) + 1)
+		pp := PrioParam{Dep: uint32(2 * (i % 3)), Exclusive: i%7 == 0, Weight: uint8(i)}
+		if pp.Dep != 0 {
+			pp.Dep--
+		}
+		cur = append(cur, PriorityFrame(st, pp))
+		q := pp
+		addEvent(FPEvent{Kind: "prio", Stream: st, Prio: &q})
+	}
+	if o.PrioBurst > 0 {
+		maybeFlush()
+	}
 	nreq := rapid.IntRange(1, o.MaxReqs).Draw(t, "nreq")
 	for ri := 0; ri < nreq; ri++ {
 		stream := uint32(2*ri + 1)
